@@ -11,6 +11,7 @@ import (
 	"io"
 	"os"
 	"path/filepath"
+	"reflect"
 	"regexp"
 	"sort"
 	"strconv"
@@ -74,10 +75,22 @@ type Tab struct {
 	// Opaque: a file that a plain `SELECT * FROM name` does not parse the way this transaction loaded it (first access through
 	// a table function with non-default options): after a COMMIT only its bytes are compared with the control run
 	Opaque bool
-	Cols   []string
+	// Ext: the extension of the table's file ("" = .csv); LoadSQL: the statement through which the table is first accessed in
+	// every transaction (a table function carrying the format attributes a plain name does not imply); after COMMIT and
+	// ROLLBACK — which empty the view cache — it is run again on the main and the control processor
+	Ext     string
+	LoadSQL string
+	Cols    []string
 	Kind   map[string]int
 	NextID int
 	fresh  int
+}
+
+func (t *Tab) FileName() string {
+	if t.Ext == "" {
+		return t.Name + ".csv"
+	}
+	return t.Name + t.Ext
 }
 
 func (t *Tab) dataCols() []string {
@@ -275,6 +288,67 @@ func Marks(pr *hc.Proc) string {
 	return "m=" + strings.Join(names, ",")
 }
 
+// FileInfos: EVERYTHING csvq holds about the tables it has loaded — every exported field of query.FileInfo (format, delimiter,
+// delimiter positions, single-line, JSON query, encoding, line break, header, enclose-all, JSON escape, pretty print, view
+// type; fields added later are picked up by reflection) — by table: the cached file tables and the temporary tables of
+// every block.  Not listed: the path, the handler and the for-update flag (a failing statement may legitimately have taken
+// the lock of a table that was cached read-only).
+func FileInfos(pr *hc.Proc) map[string]string {
+	m := map[string]string{}
+	add := func(prefix string, vm query.ViewMap) {
+		if vm.IsEmpty() {
+			return
+		}
+		vm.Range(func(_, v interface{}) bool {
+			view, ok := v.(*query.View)
+			if !ok || view == nil || view.FileInfo == nil {
+				return true
+			}
+			fi := view.FileInfo
+			b := filepath.Base(fi.Path)
+			key := prefix + strings.ToLower(strings.TrimSuffix(b, filepath.Ext(b)))
+			rv := reflect.ValueOf(*fi)
+			var fs []string
+			for i := 0; i < rv.NumField(); i++ {
+				f := rv.Type().Field(i)
+				if f.PkgPath != "" || f.Name == "Path" || f.Name == "Handler" || f.Name == "ForUpdate" {
+					continue
+				}
+				fs = append(fs, fmt.Sprintf("%s=%v", f.Name, rv.Field(i).Interface()))
+			}
+			m[key] = strings.Join(fs, " ")
+			return true
+		})
+	}
+	add("", pr.P.Tx.CachedViews)
+	for i, b := range pr.P.ReferenceScope.Blocks {
+		add(fmt.Sprintf("temp%d:", i), b.TemporaryTables)
+	}
+	return m
+}
+
+// cachedForUpdate: for every cached file table, whether it is held for update (locked) or was only read
+func cachedForUpdate(pr *hc.Proc) map[string]bool {
+	m := map[string]bool{}
+	if pr.P.Tx.CachedViews.IsEmpty() {
+		return m
+	}
+	pr.P.Tx.CachedViews.Range(func(_, v interface{}) bool {
+		if view, ok := v.(*query.View); ok && view != nil && view.FileInfo != nil {
+			b := filepath.Base(view.FileInfo.Path)
+			m[strings.ToLower(strings.TrimSuffix(b, filepath.Ext(b)))] = view.FileInfo.ForUpdate
+		}
+		return true
+	})
+	return m
+}
+
+// isLoadFailure: the statement failed while it was (re)loading a table: cancellation / lock wait time-out
+func isLoadFailure(err error) bool {
+	n := ErrNum(err)
+	return n == query.ErrorContextCanceled || n == query.ErrorContextDone || n == query.ErrorFileLockTimeout
+}
+
 var logRe = regexp.MustCompile(`^(no|\d+) (?:record|field)s? (?:inserted|updated|deleted|replaced|added|dropped|renamed) on "(.*)"\.$`)
 
 // Counts parses the affected-row log lines csvq printed for the statement.
@@ -387,19 +461,36 @@ func NewSequence(g *hc.Gen, o *hc.Out, root string, seqNo int, twin bool, maxRow
 		decls = append(decls, decl{t, rows})
 		r.Tabs = append(r.Tabs, t)
 		if t.File {
+			// stream c08 (control run present): a third of the file tables is NOT a comma-separated LF file named by its
+			// plain name — another delimiter (first access through the CSV table function), tab-separated (.tsv), CRLF
+			// line breaks: their attributes live in the FileInfo only and decide the bytes a COMMIT writes
+			sep, lb := ",", "\n"
+			if twin {
+				switch g.Intn(9) {
+				case 0:
+					sep = ";"
+					t.Opaque = true
+					t.LoadSQL = fmt.Sprintf("SELECT * FROM CSV(';', `%s.csv`);", t.Name)
+				case 1:
+					sep, t.Ext = "\t", ".tsv"
+				case 2:
+					lb = "\r\n"
+				}
+			}
 			var sb strings.Builder
-			sb.WriteString(strings.Join(t.Cols, ",") + "\n")
+			sb.WriteString(strings.Join(t.Cols, sep) + lb)
 			for _, row := range rows {
 				cs := make([]string, len(row))
 				for j, c := range row {
 					cs[j] = csvText(c)
 				}
-				sb.WriteString(strings.Join(cs, ",") + "\n")
+				sb.WriteString(strings.Join(cs, sep) + lb)
 			}
-			_ = os.WriteFile(filepath.Join(r.Dir, t.Name+".csv"), []byte(sb.String()), 0o644)
+			_ = os.WriteFile(filepath.Join(r.Dir, t.FileName()), []byte(sb.String()), 0o644)
 			if twin {
-				_ = os.WriteFile(filepath.Join(r.TwinDir, t.Name+".csv"), []byte(sb.String()), 0o644)
+				_ = os.WriteFile(filepath.Join(r.TwinDir, t.FileName()), []byte(sb.String()), 0o644)
 			}
+			o.Count("file_format:" + map[string]string{",": "csv", ";": "csv_semicolon", "\t": "tsv"}[sep] + map[string]string{"\n": "", "\r\n": "_crlf"}[lb])
 		}
 	}
 	r.CPU = 1 + g.Intn(4)
@@ -458,6 +549,9 @@ func NewSequence(g *hc.Gen, o *hc.Out, root string, seqNo int, twin bool, maxRow
 	}
 	o.Case("c05.reset", "ok")
 	for _, t := range r.Tabs {
+		if t.LoadSQL != "" {
+			r.reload(t)
+		}
 		r.SendTable(t)
 	}
 	return r
@@ -510,6 +604,7 @@ type Stmt struct {
 	// if | if2 | while | func | prepare); Prog: the program text that was actually run
 	Wrap  string
 	Prog  string
+	Outer string // multi-table statement over an outer join: left | right | full
 	Check func(before, after map[string]*Snap, matched map[string][]string, counts map[string]int) []string
 	After func() // bookkeeping after success (new columns, next id …)
 }
@@ -1202,6 +1297,69 @@ func (r *Runner) joinCond(a, b *Tab, unique bool) Ex {
 	return j
 }
 
+// outerJoinOf: `a LEFT|RIGHT|FULL [OUTER] JOIN b ON on`.  The ON conditions are drawn so that the records without a
+// partner (whose other side is NULL-padded, internal record id included) come first, in the middle or last in the
+// joined view: equal ids (the longer table's tail is unmatched), shifted ids (the head is unmatched), data columns
+// and extra conjuncts (anywhere).
+func (r *Runner) outerJoinOf(a, b *Tab) (dir, fromSQL string, on Ex) {
+	g := r.G
+	dir = g.Pick("left", "right", "full")
+	ai, bi := Col(a.Name, "id", true), Col(b.Name, "id", true)
+	switch g.Intn(6) {
+	case 0:
+		on = Bin("=", "eq", ai, bi)
+	case 1, 2:
+		on = Bin("=", "eq", ai, Bin("+", "+", bi, Int(1+g.Intn(3)))) // the first records of a have no partner
+	case 3:
+		on = Bin("=", "eq", Bin("+", "+", ai, Int(1+g.Intn(3))), bi) // the first records of b have no partner
+	default:
+		on = r.joinCond(a, b, g.Intn(2) == 0)
+	}
+	if g.Intn(4) == 0 {
+		on = Bin("AND", "and", on, r.cond(r.crefs([]*Tab{a, b}, true), 1))
+	}
+	kw := strings.ToUpper(dir)
+	if g.Intn(3) == 0 {
+		kw += " OUTER"
+	}
+	fromSQL = fmt.Sprintf("%s %s JOIN %s ON %s", a.Name, kw, b.Name, on.SQL)
+	return
+}
+
+// outerWhere: the WHERE clause over an outer join: TRUE, "every target has a partner" (only matched records remain),
+// or a random condition over both tables (padded columns are NULL)
+func (r *Runner) outerWhere(a, b *Tab, targets []string) Ex {
+	g := r.G
+	switch g.Intn(4) {
+	case 0:
+		return True()
+	case 1:
+		var w *Ex
+		for _, tn := range targets {
+			e := Not(IsNull(Col(tn, "id", true)))
+			if w == nil {
+				w = &e
+			} else {
+				c := Bin("AND", "and", *w, e)
+				w = &c
+			}
+		}
+		return *w
+	}
+	return r.cond(r.crefs([]*Tab{a, b}, true), 1)
+}
+
+// dropNullIDs: the ids a separate SELECT over an outer join returns for a table; NULL = the padded side, no record
+func dropNullIDs(ids []string) []string {
+	out := ids[:0:0]
+	for _, id := range ids {
+		if id != "N" {
+			out = append(out, id)
+		}
+	}
+	return out
+}
+
 func (r *Runner) genUpdateMulti(a, b *Tab, f *Fault) *Stmt {
 	g := r.G
 	if len(a.dataCols()) == 0 {
@@ -1210,6 +1368,14 @@ func (r *Runner) genUpdateMulti(a, b *Tab, f *Fault) *Stmt {
 	targets := []*Tab{a}
 	if g.Intn(3) == 0 && len(b.dataCols()) > 0 {
 		targets = append(targets, b)
+	}
+	// a third of the statements go over an OUTER join (a target on the padded side has no record id there)
+	outer := g.Intn(3) == 0 && fk(f) != "dup" && fk(f) != "field"
+	if outer && len(b.dataCols()) > 0 && g.Intn(3) == 0 {
+		targets = []*Tab{b}
+		if g.Intn(2) == 0 {
+			targets = []*Tab{b, a}
+		}
 	}
 	cs := r.crefs([]*Tab{a, b}, true)
 	cond := r.joinCond(a, b, g.Intn(6) != 0 && fk(f) != "dup")
@@ -1252,13 +1418,23 @@ func (r *Runner) genUpdateMulti(a, b *Tab, f *Fault) *Stmt {
 	s := &Stmt{Kind: "updatem", Targets: tn, Fault: f}
 	from := a.Name + ", " + b.Name
 	where := cond.SQL
-	if g.Intn(3) == 0 {
-		from = a.Name + " JOIN " + b.Name + " ON " + cond.SQL
-		where = "TRUE"
-		cond = Bin("AND", "and", cond, True())
+	if outer {
+		dir, fromSQL, on := r.outerJoinOf(a, b)
+		if fk(f) != "where" {
+			cond = r.outerWhere(a, b, tn)
+		}
+		from, where = fromSQL, cond.SQL
+		s.Op = fmt.Sprintf("updatej %d %s %s %s %s %d %s %s %s", len(tn), strings.Join(tn, " "), dir, a.Name, b.Name, len(sets), strings.Join(st, " "), on.Tok, cond.Tok)
+		s.Outer = dir
+	} else {
+		if g.Intn(3) == 0 {
+			from = a.Name + " JOIN " + b.Name + " ON " + cond.SQL
+			where = "TRUE"
+			cond = Bin("AND", "and", cond, True())
+		}
+		s.Op = fmt.Sprintf("updatem %d %s 2 %s %s %d %s %s", len(tn), strings.Join(tn, " "), a.Name, b.Name, len(sets), strings.Join(st, " "), cond.Tok)
 	}
 	s.SQL = fmt.Sprintf("UPDATE %s SET %s FROM %s WHERE %s", strings.Join(tn, ", "), strings.Join(ss, ", "), from, where)
-	s.Op = fmt.Sprintf("updatem %d %s 2 %s %s %d %s %s", len(tn), strings.Join(tn, " "), a.Name, b.Name, len(sets), strings.Join(st, " "), cond.Tok)
 	if f != nil {
 		return s
 	}
@@ -1282,14 +1458,35 @@ func (r *Runner) genDeleteMulti(a, b *Tab, f *Fault) *Stmt {
 	if g.Intn(3) == 0 {
 		tn = append(tn, b.Name)
 	}
+	// a third of the statements go over an OUTER join: the records without a partner carry no record id for the
+	// padded table and are passed over, wherever they stand in the joined view
+	outer := g.Intn(3) == 0
+	if outer {
+		switch g.Intn(4) {
+		case 0:
+			tn = []string{b.Name}
+		case 1:
+			tn = []string{b.Name, a.Name}
+		}
+	}
 	cond := r.joinCond(a, b, g.Intn(3) != 0)
 	if fk(f) == "where" {
 		cond = Bin("=", "eq", failAt(Col(a.Name, "id", true), f.Row), Int(1))
 	}
 	s := &Stmt{Kind: "deletem", Targets: tn, Fault: f}
 	from := a.Name + ", " + b.Name
+	if outer {
+		dir, fromSQL, on := r.outerJoinOf(a, b)
+		if fk(f) != "where" {
+			cond = r.outerWhere(a, b, tn)
+		}
+		from = fromSQL
+		s.Op = fmt.Sprintf("deletej %d %s %s %s %s %s %s", len(tn), strings.Join(tn, " "), dir, a.Name, b.Name, on.Tok, cond.Tok)
+		s.Outer = dir
+	} else {
+		s.Op = fmt.Sprintf("deletem %d %s 2 %s %s %s", len(tn), strings.Join(tn, " "), a.Name, b.Name, cond.Tok)
+	}
 	s.SQL = fmt.Sprintf("DELETE %s FROM %s WHERE %s", strings.Join(tn, ", "), from, cond.SQL)
-	s.Op = fmt.Sprintf("deletem %d %s 2 %s %s %s", len(tn), strings.Join(tn, " "), a.Name, b.Name, cond.Tok)
 	if f != nil {
 		return s
 	}
@@ -1694,7 +1891,7 @@ func (r *Runner) genCreate(t *Tab, f *Fault) *Stmt {
 		return s
 	case "casecoll":
 		// a name that differs only in letter case from a table that is OPEN in this transaction (its lock file exists)
-		if !t.File {
+		if !t.File || t.Ext != "" {
 			return nil
 		}
 		if _, err := os.Stat(filepath.Join(r.Dir, "."+t.Name+".csv.lock")); err != nil {
@@ -1707,7 +1904,7 @@ func (r *Runner) genCreate(t *Tab, f *Fault) *Stmt {
 		}
 		return s // law-only: the model's table names are exact
 	case "exists":
-		if !t.File {
+		if !t.File || t.Ext != "" {
 			return nil
 		}
 		s.SQL = fmt.Sprintf("CREATE TABLE `%s.csv` (a, b)", t.Name)
@@ -1950,6 +2147,8 @@ func (r *Runner) Exec(st *Stmt, cancelAt int64) *Outcome {
 	if st.Kind == "setattr" {
 		attrsBefore = r.Attrs(r.Pr, st.Targets[0])
 	}
+	fiBefore := FileInfos(r.Pr)
+	fuBefore := cachedForUpdate(r.Pr)
 	matched := map[string][]string{}
 	matchOK := true
 	for k, q := range st.MatchSQL {
@@ -1966,6 +2165,9 @@ func (r *Runner) Exec(st *Stmt, cancelAt int64) *Outcome {
 				ids = append(ids, id)
 			}
 			seen[id] = true
+		}
+		if st.Outer != "" {
+			ids = dropNullIDs(ids) // the padded side of an outer join: no record
 		}
 		matched[k] = ids
 	}
@@ -1988,6 +2190,39 @@ func (r *Runner) Exec(st *Stmt, cancelAt int64) *Outcome {
 	r.Pr.Ctx = saved
 	o.Count("block:" + wrap)
 	out := &Outcome{Err: err}
+	droppedTabs := map[string]bool{}
+	if err != nil {
+		// a failed statement must not DROP a table from the view cache: with the cached view go the attributes of its
+		// first access (a later plain reference parses the file with the defaults).  Reported — under its own name, once
+		// per event — when the plain name now shows another table or other attributes than before; the sequence is
+		// abandoned then (the plain access cached the table with the defaults, the table function would only find that).
+		fiNow := FileInfos(r.Pr)
+		for n := range fiBefore {
+			if _, ok := fiNow[n]; ok || strings.HasPrefix(n, "temp") || before[n] == nil {
+				continue
+			}
+			o.Count("dropped_cached_table")
+			now := r.snap(n)
+			fiReloaded := FileInfos(r.Pr)[n]
+			if now.Equal(before[n]) && fiReloaded == fiBefore[n] {
+				continue // re-read from the file with the same attributes: nothing to see in this process
+			}
+			rp := map[string]interface{}{"sql": st.Prog, "error": err.Error(), "table": n, "attributes_before": fiBefore[n], "attributes_after": fiReloaded,
+				"table_before": clip(before[n].Dump(n)), "table_after": clip(now.Dump(n)), "cached_for_update_before": fuBefore[n]}
+			if t := r.Tab(n); t != nil && t.LoadSQL != "" {
+				rp["first_access"] = t.LoadSQL
+			}
+			if cancelAt > 0 {
+				rp["cancel_at_ctx_err_call"] = cancelAt
+			}
+			if !fuBefore[n] && isLoadFailure(err) {
+				rp["shape"] = "read-only cached table; the statement failed while it was reloading the table for update"
+			}
+			o.Law("failed_statement_dropped_cached_table", rp)
+			out.Failed = append(out.Failed, "failed_statement_dropped_cached_table")
+			droppedTabs[n] = true
+		}
+	}
 	after := r.snapAll()
 	replay := func() map[string]interface{} {
 		m := map[string]interface{}{"sql": st.Prog, "cpu": r.CPU, "fault": fk(st.Fault)}
@@ -2036,7 +2271,7 @@ func (r *Runner) Exec(st *Stmt, cancelAt int64) *Outcome {
 	if err != nil {
 		// C08 on the implementation alone: nothing visible may have changed
 		for n, b := range before {
-			if !b.Equal(after[n]) {
+			if !b.Equal(after[n]) && !droppedTabs[n] {
 				rp := replay()
 				rp["changed_table"] = n
 				d := after[n].Dump(n)
@@ -2070,6 +2305,18 @@ func (r *Runner) Exec(st *Stmt, cancelAt int64) *Outcome {
 				rp["attributes_before"], rp["attributes_after"] = attrsBefore, a
 				o.Law("failed_statement_changed_attributes", rp)
 				out.Failed = append(out.Failed, "failed_statement_changed_attributes")
+			}
+		}
+		// the table "exactly as it was" includes its ATTRIBUTES: whatever statement failed, every field of the FileInfo of
+		// every table that was loaded before is unchanged (a COMMIT writes the file from them)
+		fiAfter := FileInfos(r.Pr)
+		for n, b := range fiBefore {
+			if a, ok := fiAfter[n]; ok && a != b && !droppedTabs[n] {
+				rp := replay()
+				rp["table"], rp["attributes_before"], rp["attributes_after"] = n, b, a
+				o.Law("failed_statement_changed_attributes", rp)
+				out.Failed = append(out.Failed, "failed_statement_changed_attributes")
+				break
 			}
 		}
 		// files: a failed statement removes nothing (not even the lock / temporary files of tables that are open in
@@ -2340,6 +2587,9 @@ func (r *Runner) Rollback() {
 	r.pendingCreated = nil
 	r.afterFailedCommit = false
 	for _, t := range r.Tabs {
+		if t.LoadSQL != "" {
+			r.reload(t) // ROLLBACK emptied the view cache
+		}
 		sn := r.snap(t.Name)
 		o.Case("c05.dump "+t.Name, sn.Dump(t.Name))
 		if len(sn.Header) > 0 {
@@ -2457,8 +2707,8 @@ func (r *Runner) CommitAt(cancelAt int64) bool {
 			o.Case("c05.committed "+t.Name, txt)
 		}
 		if r.Twin != nil {
-			a, _ := os.ReadFile(filepath.Join(r.Dir, t.Name+".csv"))
-			b, _ := os.ReadFile(filepath.Join(r.TwinDir, t.Name+".csv"))
+			a, _ := os.ReadFile(filepath.Join(r.Dir, t.FileName()))
+			b, _ := os.ReadFile(filepath.Join(r.TwinDir, t.FileName()))
 			if string(a) != string(b) {
 				law := "partial_effects_committed"
 				if r.afterFailedCommit {
@@ -2469,6 +2719,12 @@ func (r *Runner) CommitAt(cancelAt int64) bool {
 				o.Law(law, map[string]interface{}{"table": t.Name, "bytes": len(a), "bytes_control": len(b), "file": clip(string(a)), "file_of_control_run": clip(string(b)), "file_tail": tail(string(a))})
 			}
 		}
+		if t.LoadSQL != "" {
+			// the view cache is empty after COMMIT: the table is accessed through its table function again, then re-sent
+			r.reload(t)
+			r.SendTable(t)
+			continue
+		}
 		if t.Opaque {
 			continue
 		}
@@ -2476,6 +2732,18 @@ func (r *Runner) CommitAt(cancelAt int64) bool {
 	}
 	r.afterFailedCommit = false
 	return true
+}
+
+// reload: the first access of a transaction to a table whose format attributes come from a table function
+func (r *Runner) reload(t *Tab) {
+	for _, pr := range []*hc.Proc{r.Pr, r.Twin} {
+		if pr == nil {
+			continue
+		}
+		if _, err := pr.Exec(t.LoadSQL); err != nil {
+			r.O.Law("setup_failed", map[string]string{"sql": t.LoadSQL, "error": err.Error()})
+		}
+	}
 }
 
 func tail(s string) string {
@@ -3267,6 +3535,234 @@ func AttrCorpus(g *hc.Gen, o *hc.Out, root string) {
 	}
 }
 
+// FormatCorpus (c08, first on every run): tables of EVERY file format with their format attributes — fixed-length with
+// explicit delimiter positions (given by the table function or by ALTER TABLE SET; with and without header line),
+// single-line fixed-length; CSV with another delimiter, enclose-all, CRLF, Shift-JIS, UTF-8 with BOM, without header line; TSV; JSON
+// pretty-printed / with hexadecimal escapes; JSON Lines; LTSV — and EVERY statement kind that can fail part-way: ALTER
+// TABLE ADD with a default failing at the first / a middle / the last record or a duplicate after a valid name, DROP and
+// RENAME with a missing column after a valid one, SET <attribute> with invalid values, UPDATE / DELETE failing at record
+// k, INSERT / REPLACE failing at the k-th row, ADD and UPDATE cancelled at the k-th context check.  One episode per
+// (table, statement): first access through the table function (both runs), on odd episodes an earlier successful change
+// (both runs), the failing statement (main run only) with records, marks and ALL attributes (FileInfo) compared around it
+// and with the control run, a later successful change of the same table (both runs), COMMIT (both) — and the bytes of
+// every file compared with the control run's.
+func FormatCorpus(g *hc.Gen, o *hc.Out, root string) {
+	type ft struct {
+		name, file, content, load, idc, vc string
+		pre                                []string // attribute changes that succeed, run in both runs at the start of every episode
+	}
+	fixed := "id    v         \n1     a         \n2     bb        \n3     c         \n4     dd        \n"
+	fixedNH := "1     a         \n2     bb        \n3     c         \n4     dd        \n"
+	tabs := []ft{
+		{"fx", "fx.txt", fixed, "SELECT * FROM FIXED('[6, 16]', `fx.txt`);", "id", "v", nil},
+		{"fn", "fn.txt", fixedNH, "SELECT * FROM FIXED('[6, 16]', `fn.txt`, 'UTF8', TRUE);", "c1", "c2", nil},
+		{"fs", "fs.txt", "1  a  2  bb 3  c  4  dd ", "SELECT * FROM FIXED('S[3, 6]', `fs.txt`);", "c1", "c2", nil},
+		{"fp", "fp.txt", fixed, "SELECT * FROM FIXED('SPACES', `fp.txt`);", "id", "v", []string{"ALTER TABLE fp SET DELIMITER_POSITIONS TO '[6, 16]';"}},
+		{"sc", "sc.csv", "id;v\n1;a\n2;bb\n3;c\n4;dd\n", "SELECT * FROM CSV(';', `sc.csv`);", "id", "v", nil},
+		{"ea", "ea.csv", "id,v\n1,a\n2,bb\n3,c\n4,dd\n", "SELECT * FROM ea;", "id", "v", []string{"ALTER TABLE ea SET ENCLOSE_ALL TO TRUE;"}},
+		{"cr", "cr.csv", "id,v\r\n1,a\r\n2,bb\r\n3,c\r\n4,dd\r\n", "SELECT * FROM cr;", "id", "v", nil},
+		{"sj", "sj.csv", "id,v\n1,\x83A\n2,\x83C\n3,c\n4,dd\n", "SELECT * FROM CSV(',', `sj.csv`, 'SJIS');", "id", "v", nil},
+		{"bm", "bm.csv", "\xef\xbb\xbfid,v\n1,é\n2,bb\n3,c\n4,dd\n", "SELECT * FROM bm;", "id", "v", nil},
+		{"nh", "nh.csv", "1,a\n2,bb\n3,c\n4,dd\n", "SELECT * FROM CSV(',', `nh.csv`, 'UTF8', TRUE);", "c1", "c2", nil},
+		{"ts", "ts.tsv", "id\tv\n1\ta\n2\tbb\n3\tc\n4\tdd\n", "SELECT * FROM ts;", "id", "v", nil},
+		{"jp", "jp.json", `[{"id":1,"v":"a"},{"id":2,"v":"bb"},{"id":3,"v":"c"},{"id":4,"v":"dd"}]`, "SELECT * FROM jp;", "id", "v", []string{"ALTER TABLE jp SET PRETTY_PRINT TO TRUE;"}},
+		{"je", "je.json", `[{"id":1,"v":"é"},{"id":2,"v":"日本"},{"id":3,"v":"c"},{"id":4,"v":"dd"}]`, "SELECT * FROM je;", "id", "v", []string{"ALTER TABLE je SET JSON_ESCAPE TO 'HEX';"}},
+		{"jl", "jl.jsonl", "{\"id\":1,\"v\":\"a\"}\n{\"id\":2,\"v\":\"bb\"}\n{\"id\":3,\"v\":\"c\"}\n{\"id\":4,\"v\":\"dd\"}\n", "SELECT * FROM jl;", "id", "v", nil},
+		{"lt", "lt.ltsv", "id:1\tv:a\nid:2\tv:bb\nid:3\tv:c\nid:4\tv:dd\n", "SELECT * FROM lt;", "id", "v", nil},
+	}
+	dirA, dirB := filepath.Join(root, "corpus-format"), filepath.Join(root, "corpus-format-twin")
+	for _, d := range []string{dirA, dirB} {
+		_ = os.MkdirAll(d, 0o755)
+		for _, t := range tabs {
+			_ = os.WriteFile(filepath.Join(d, t.file), []byte(t.content), 0o644)
+		}
+	}
+	defer os.RemoveAll(dirA)
+	defer os.RemoveAll(dirB)
+	r := &Runner{G: g, O: o, CPU: 1, Dir: dirA, TwinDir: dirB}
+	r.Pr, r.Twin = hc.NewProc(dirA), hc.NewProc(dirB)
+	defer r.Pr.Close()
+	defer r.Twin.Close()
+	type fail struct {
+		kind, sql string
+		cancelAt  int64
+	}
+	state := func(pr *hc.Proc, t string) map[string]string {
+		m := map[string]string{"marks": Marks(pr), "attributes (SHOW FIELDS)": r.Attrs(pr, t)}
+		if sn, _, err := SnapOf(pr, t); err == nil {
+			m["records"] = sn.Dump(t)
+		} else {
+			m["records"] = "error: " + err.Error()
+		}
+		for k, v := range FileInfos(pr) {
+			m["attributes (FileInfo) of "+k] = v
+		}
+		return m
+	}
+	both := func(sql string) bool {
+		_, e1 := r.Pr.Exec(sql)
+		_, e2 := r.Twin.Exec(sql)
+		if e1 != nil || e2 != nil {
+			o.Law("corpus_statement_failed", map[string]string{"sql": sql, "main": fmt.Sprint(e1), "control": fmt.Sprint(e2)})
+			return false
+		}
+		return true
+	}
+	ep := 0
+	for ti, t := range tabs {
+		n, id, v := t.name, t.idc, t.vc
+		fails := []fail{
+			{"add_default_fails_at_first_record", fmt.Sprintf("ALTER TABLE %s ADD (zz DEFAULT 1 / (INTEGER(%s) - 1));", n, id), 0},
+			{"add_default_fails_at_middle_record", fmt.Sprintf("ALTER TABLE %s ADD (zz DEFAULT 10 / (2 - INTEGER(%s))) FIRST;", n, id), 0},
+			{"add_default_fails_at_last_record", fmt.Sprintf("ALTER TABLE %s ADD (zy, zz DEFAULT 1 / (INTEGER(%s) - 4)) AFTER %s;", n, id, id), 0},
+			{"add_duplicate_after_valid", fmt.Sprintf("ALTER TABLE %s ADD (zy, %s);", n, v), 0},
+			{"add_cancelled", fmt.Sprintf("ALTER TABLE %s ADD (zz DEFAULT %s);", n, id), 1 + int64(ti%3)},
+			{"drop_missing_after_valid", fmt.Sprintf("ALTER TABLE %s DROP (%s, zz);", n, v), 0},
+			{"rename_missing", fmt.Sprintf("ALTER TABLE %s RENAME zz TO zy;", n), 0},
+			{"rename_to_existing", fmt.Sprintf("ALTER TABLE %s RENAME %s TO %s;", n, v, id), 0},
+			{"update_fails_at_first_record", fmt.Sprintf("UPDATE %s SET %s = 1 / (INTEGER(%s) - 1);", n, v, id), 0},
+			{"update_fails_at_last_record", fmt.Sprintf("UPDATE %s SET %s = 1 / (INTEGER(%s) - 4);", n, v, id), 0},
+			{"update_cancelled", fmt.Sprintf("UPDATE %s SET %s = 'q';", n, v), 1 + int64((ti+1)%3)},
+			{"insert_fails_at_second_row", fmt.Sprintf("INSERT INTO %s VALUES (7, 'x'), (8, 1 / 0);", n), 0},
+			{"replace_fails_at_second_row", fmt.Sprintf("REPLACE INTO %s (%s, %s) USING (%s) VALUES (1, 'r'), (2, 1 / 0);", n, id, v, id), 0},
+			{"delete_fails_at_third_record", fmt.Sprintf("DELETE FROM %s WHERE 1 / (INTEGER(%s) - 3) = 1;", n, id), 0},
+		}
+		for k := 0; k < 4; k++ {
+			a := BadAttrs[(ti*4+k)%len(BadAttrs)]
+			fails = append(fails, fail{"set_invalid:" + strings.SplitN(a, " ", 2)[0], fmt.Sprintf("ALTER TABLE %s SET %s;", n, a), 0})
+		}
+		for _, f := range fails {
+			ep++
+			// first access of the transaction: through the table function; then the successful attribute changes
+			if !both(t.load) {
+				return
+			}
+			for _, sql := range t.pre {
+				if !both(sql) {
+					return
+				}
+			}
+			if ep%2 == 1 {
+				if !both(fmt.Sprintf("UPDATE %s SET %s = 'p%d' WHERE %s = 3;", n, v, ep, id)) {
+					return
+				}
+			}
+			before := state(r.Pr, n)
+			saved := r.Pr.Ctx
+			if f.cancelAt > 0 {
+				var cnt int64
+				r.Pr.Ctx = cancelCtx{saved, &cnt, f.cancelAt}
+			}
+			_, err := r.Pr.Exec(f.sql)
+			r.Pr.Ctx = saved
+			o.Count("corpus:format")
+			stop := false // a law failed: the episode is still carried through COMMIT (the bytes show the damage), then the corpus ends
+			if err == nil {
+				// (e.g. a cancellation index beyond the statement's context checks): an ordinary statement, repeated in the control run
+				o.Count("corpus:format_did_not_fail:" + f.kind)
+				if f.cancelAt == 0 {
+					o.Law("corpus_statement_did_not_fail", map[string]string{"table": t.file, "sql": f.sql})
+					return
+				}
+				if _, e2 := r.Twin.Exec(f.sql); e2 != nil {
+					o.Law("control_run_diverged", map[string]string{"sql": f.sql, "control": e2.Error()})
+					return
+				}
+			} else {
+				o.NonTrivial(fmt.Sprintf("format:%s:%s:E%d", n, f.kind, ErrNum(err)))
+				after := state(r.Pr, n)
+				ctl := state(r.Twin, n)
+				rp := map[string]interface{}{"table": t.file, "first_access": t.load, "attribute_changes_before": t.pre, "failing_statement": f.sql, "error": err.Error()}
+				if f.cancelAt > 0 {
+					rp["cancel_at_ctx_err_call"] = f.cancelAt
+				}
+				for k, b := range before {
+					a, ok := after[k]
+					if !ok || a == b {
+						continue
+					}
+					law := "failed_statement_changed_table"
+					switch {
+					case strings.HasPrefix(k, "attributes"):
+						law = "failed_statement_changed_attributes"
+					case k == "marks":
+						law = "failed_statement_changed_marks"
+					}
+					rp["what"], rp["before"], rp["after"] = k, clip(b), clip(a)
+					o.Law(law, rp)
+					stop = true // one defect, one report
+					break
+				}
+				for k, c := range ctl {
+					if a, ok := after[k]; ok && a != c && !stop {
+						rp["what"], rp["with_failed_statement"], rp["control_run"] = k, clip(a), clip(c)
+						o.Law("failed_statement_changed_attributes", rp)
+						stop = true
+					}
+				}
+			}
+			// a later successful change of the same table, then COMMIT: the file is written from the attributes
+			if !both(fmt.Sprintf("UPDATE %s SET %s = 'u%d' WHERE %s = 2;", n, v, ep, id)) {
+				return
+			}
+			if !both("COMMIT;") {
+				return
+			}
+			a, _ := os.ReadFile(filepath.Join(dirA, t.file))
+			b, _ := os.ReadFile(filepath.Join(dirB, t.file))
+			if string(a) != string(b) {
+				o.Law("partial_effects_committed", map[string]interface{}{"table": t.file, "first_access": t.load, "attribute_changes_before": t.pre,
+					"failing_statement": f.sql, "error": fmt.Sprint(err), "then": "a successful UPDATE and COMMIT",
+					"file": clip(string(a)), "file_of_control_run": clip(string(b))})
+				return
+			}
+			if stop {
+				return
+			}
+		}
+	}
+}
+
+// DroppedCacheWitness (c08, first on every run): the corpus entry of the known finding "a statement that fails while it
+// reloads a read-only cached table for update drops the cached view": `sc.csv` (';'-separated) is first read through
+// CSV(';', …); another process holds its lock; UPDATE sc … fails with a lock wait time-out; afterwards the plain name
+// parses the file with the default delimiter (one column `id;v`).  cacheViewFromFile disposes the cached view BEFORE it
+// has the lock and the new view.
+func DroppedCacheWitness(g *hc.Gen, o *hc.Out, root string) {
+	dir := filepath.Join(root, "witness-dropped-cache")
+	_ = os.MkdirAll(dir, 0o755)
+	defer os.RemoveAll(dir)
+	_ = os.WriteFile(filepath.Join(dir, "sc.csv"), []byte("id;v\n1;a\n2;b\n"), 0o644)
+	r := &Runner{G: g, O: o, CPU: 1, Dir: dir, OnlyFailureLaws: true}
+	r.Pr = hc.NewProc(dir)
+	defer r.Pr.Close()
+	r.Pr.P.Tx.WaitTimeout = 30 * time.Millisecond
+	r.Pr.P.Tx.RetryDelay = 5 * time.Millisecond
+	t := &Tab{Name: "sc", File: true, Opaque: true, LoadSQL: "SELECT * FROM CSV(';', `sc.csv`);", Cols: []string{"id", "v"}, Kind: map[string]int{"id": KInt, "v": KStr}, NextID: 3}
+	r.Tabs = []*Tab{t}
+	r.reload(t)
+	lock := filepath.Join(dir, ".sc.csv.lock")
+	_ = os.WriteFile(lock, nil, 0o644) // "another process" holds the table
+	st := &Stmt{Kind: "update", Targets: []string{"sc"}, Wrap: "plain", SQL: "UPDATE sc SET v = 'x' WHERE id = 1", Fault: &Fault{Kind: "lock_held_by_another_process"}}
+	before := r.snap("sc")
+	_, err := r.Pr.Exec(st.SQL + ";")
+	_ = os.Remove(lock)
+	o.Count("corpus:dropped_cache_witness")
+	if err == nil {
+		o.Law("corpus_statement_did_not_fail", map[string]string{"sql": st.SQL})
+		return
+	}
+	after := r.snap("sc")
+	if !before.Equal(after) {
+		o.Law("failed_statement_dropped_cached_table", map[string]interface{}{"sql": st.SQL + ";", "error": err.Error(), "table": "sc",
+			"first_access": t.LoadSQL, "cached_for_update_before": false,
+			"shape":        "read-only cached table; the statement failed while it was reloading the table for update",
+			"table_before": before.Dump("sc"), "table_after": after.Dump("sc")})
+	} else {
+		o.Count("corpus:dropped_cache_witness_repaired")
+	}
+}
+
 // LoadFuncCorpus (c08, first on every run): tables whose FIRST access in the transaction goes through a table function
 // with non-default options (no header line, another delimiter, another encoding); then a FAILING and a succeeding
 // data-changing statement name them plainly (the for-update reload must keep the attributes of the first load).
@@ -3519,6 +4015,152 @@ func NumberRefCorpus(g *hc.Gen, o *hc.Out, root string) {
 		}
 	}
 	r.Commit()
+}
+
+// FixedAddWitness (c05, first on every run): the corpus entry of the known finding "a column added to a fixed-length table
+// that was read with explicit delimiter positions is not written by COMMIT": fx.txt read through FIXED('[6, 16]', …);
+// ALTER TABLE fx ADD (w DEFAULT 5) reports "1 field added", SELECT * shows the column, COMMIT reports the file as updated —
+// and writes only the two columns the positions cover.  The property text: ADD touches only the named columns AND the
+// change is what the committed file holds.
+func FixedAddWitness(g *hc.Gen, o *hc.Out, root string) {
+	dir := filepath.Join(root, "witness-fixed-add")
+	_ = os.MkdirAll(dir, 0o755)
+	defer os.RemoveAll(dir)
+	content := "id    v         \n1     a         \n2     bb        \n"
+	_ = os.WriteFile(filepath.Join(dir, "fx.txt"), []byte(content), 0o644)
+	pr := hc.NewProc(dir)
+	prog := "SELECT * FROM FIXED('[6, 16]', `fx.txt`); ALTER TABLE fx ADD (w DEFAULT 5);"
+	_, err := pr.Exec(prog)
+	var inSession []string
+	if sn, _, e := SnapOf(pr, "fx"); e == nil {
+		inSession = sn.Header
+	}
+	if err == nil {
+		_, err = pr.Exec("COMMIT;")
+	}
+	pr.Close()
+	o.Count("corpus:fixed_add_witness")
+	if err != nil {
+		o.Law("corpus_statement_failed", map[string]string{"sql": prog + " COMMIT;", "error": err.Error()})
+		return
+	}
+	b, _ := os.ReadFile(filepath.Join(dir, "fx.txt"))
+	lines := strings.Split(string(b), "\n")
+	if len(lines) == 0 || !strings.Contains(lines[0], "w") {
+		o.Law("added_column_not_written_by_commit", map[string]interface{}{"file_before": content, "program": prog + " COMMIT;",
+			"header_in_session": inSession, "file_after_commit": string(b)})
+	} else {
+		o.Count("corpus:fixed_add_witness_repaired")
+	}
+}
+
+// OuterJoinCorpus (c05, first on every run): multi-table DELETE and UPDATE whose FROM clause is a LEFT / RIGHT / FULL
+// join, with one or two targets in either order, over tables in which the records WITHOUT a partner stand first, in the
+// middle and last (and one record has two partners).  On the padded side of such a record the target has no internal
+// record id: DELETE passes it over and goes on, UPDATE refuses the statement ("value … to set in the field … is
+// ambiguous") unless WHERE removes those records.  Every statement is followed by ROLLBACK, so each one sees the same tables.
+func OuterJoinCorpus(g *hc.Gen, o *hc.Out, root string) {
+	a := [][]int{{0, 10}, {1, 11}, {2, 12}, {3, 13}, {4, 14}}
+	patterns := [][]int{
+		{9, 2, 3, 9, 4, 9}, // a: 0,1 unmatched FIRST;   b: unmatched first, middle, last
+		{0, 1, 9, 3, 4, 4}, // a: 2 unmatched in the MIDDLE, 4 has two partners
+		{0, 1, 2, 2, 9, 3}, // a: 4 unmatched LAST, 2 has two partners
+	}
+	for pi, ks := range patterns {
+		b := make([][]int, len(ks))
+		for i, k := range ks {
+			b[i] = []int{i, k, 20 + i}
+		}
+		// storage: file + temporary, temporary + file, file + STDIN
+		tabs := [][]fixedTab{
+			{{"f1", true, []string{"id", "x"}, a}, {"m2", false, []string{"id", "k", "y"}, b}},
+			{{"m1", false, []string{"id", "x"}, a}, {"f2", true, []string{"id", "k", "y"}, b}},
+			{{"f1", true, []string{"id", "x"}, a}, {"stdin", false, []string{"id", "k", "y"}, b}},
+		}[pi]
+		r := newFixedRunner(g, o, root, fmt.Sprintf("corpus-outer%d", pi), tabs)
+		r.OnlyFailureLaws = false
+		r.dropTwin()
+		ta, tb := r.Tabs[0], r.Tabs[1]
+		an, bn := ta.Name, tb.Name
+		on := Bin("=", "eq", Col(an, "id", true), Col(bn, "k", true))
+		notNull := func(tn string) Ex { return Not(IsNull(Col(tn, "id", true))) }
+		for _, dir := range []string{"left", "right", "full"} {
+			from := fmt.Sprintf("%s %s JOIN %s ON %s", an, strings.ToUpper(dir), bn, on.SQL)
+			for _, tn := range [][]string{{an}, {bn}, {an, bn}, {bn, an}} {
+				wheres := []Ex{True(), Bin(">=", "ge", Col(bn, "y", true), Int(21))}
+				guard := notNull(tn[0])
+				if len(tn) == 2 {
+					guard = Bin("AND", "and", guard, notNull(tn[1]))
+				}
+				wheres = append(wheres, guard)
+				for wi, wh := range wheres {
+					var stmts []*Stmt
+					// DELETE
+					d := &Stmt{Kind: "deletem", Targets: tn, Wrap: "plain", Outer: dir}
+					d.SQL = fmt.Sprintf("DELETE %s FROM %s WHERE %s", strings.Join(tn, ", "), from, wh.SQL)
+					d.Op = fmt.Sprintf("deletej %d %s %s %s %s %s %s", len(tn), strings.Join(tn, " "), dir, an, bn, on.Tok, wh.Tok)
+					d.MatchSQL = map[string]string{}
+					for _, n := range tn {
+						d.MatchSQL[n] = fmt.Sprintf("SELECT %s.id FROM %s WHERE %s", n, from, wh.SQL)
+					}
+					dtn := tn
+					d.Check = func(before, after map[string]*Snap, matched map[string][]string, counts map[string]int) []string {
+						var bad []string
+						for _, n := range dtn {
+							bad = append(bad, deleteFrame(n, before, after, matched, counts)...)
+						}
+						return bad
+					}
+					stmts = append(stmts, d)
+					// UPDATE (the WHERE `y >= 21` variant is left to DELETE: an UPDATE writing a record twice fails anyway)
+					if wi != 1 {
+						var ss, st []string
+						setCols := map[string][]string{}
+						for _, n := range tn {
+							c := "x"
+							if n == bn {
+								c = "y"
+							}
+							// the value comes from the OTHER table: NULL where that side is padded
+							src := Col(bn, "y", true)
+							if n == bn {
+								src = Col(an, "x", true)
+							}
+							e := Bin("+", "+", src, Int(100))
+							ss = append(ss, n+"."+c+" = "+e.SQL)
+							st = append(st, n+" "+c+" "+e.Tok)
+							setCols[n] = []string{c}
+						}
+						u := &Stmt{Kind: "updatem", Targets: tn, Wrap: "plain", Outer: dir}
+						u.SQL = fmt.Sprintf("UPDATE %s SET %s FROM %s WHERE %s", strings.Join(tn, ", "), strings.Join(ss, ", "), from, wh.SQL)
+						u.Op = fmt.Sprintf("updatej %d %s %s %s %s %d %s %s %s", len(tn), strings.Join(tn, " "), dir, an, bn, len(tn), strings.Join(st, " "), on.Tok, wh.Tok)
+						u.MatchSQL = d.MatchSQL
+						u.Check = func(before, after map[string]*Snap, matched map[string][]string, counts map[string]int) []string {
+							var bad []string
+							for _, n := range dtn {
+								bad = append(bad, updateFrame(n, setCols[n], before, after, matched, counts)...)
+							}
+							return bad
+						}
+						stmts = append(stmts, u)
+					}
+					for _, st := range stmts {
+						out := r.Exec(st, 0)
+						o.Count("corpus:outer_join:" + st.Kind)
+						res := "ok"
+						if out.Err != nil {
+							res = fmt.Sprintf("E%d", ErrNum(out.Err))
+						}
+						o.NonTrivial(fmt.Sprintf("outer:%s:%s:%d:%s:p%d:w%d:%s", st.Kind, dir, len(tn), tn[0], pi, wi, res))
+						if len(Marks(r.Pr)) > 2 {
+							r.Rollback()
+						}
+					}
+				}
+			}
+		}
+		r.Close()
+	}
 }
 
 // BigKeyCorpus (c05, first on every run): key matching with 16-19 digit integer keys that are adjacent beyond 2^53 (equal
